@@ -435,9 +435,9 @@ def dist3 (a b : Vec3 α) : α :=
 
 /-- `SoftSurfaceEqual::soft_eq_sq` -/
 def softEqSq (se : SoftEq α) (a b : α) : Bool := se.eq (Num.sqrt a) (Num.sqrt b)
-/-- `SoftSurfaceEqual::soft_eq_distance` (uses abs·max(|a|,|b|) as written) -/
+/-- `SoftSurfaceEqual::soft_eq_distance`: ‖a − b‖ < max(abs, rel·max(‖a‖, ‖b‖)) -/
 def softEqDist (se : SoftEq α) (a b : Vec3 α) : Bool :=
-  let rel := se.abs * fmax (Vec3.norm a) (Vec3.norm b)
+  let rel := se.rel * fmax (Vec3.norm a) (Vec3.norm b)
   Num.lt (dist3 a b) (fmax se.abs rel)
 
 /-- `SoftSurfaceEqual{tol}(a, b)` for two surfaces of the same class (false otherwise) -/
